@@ -33,6 +33,13 @@ def run(ctx):
     from .c06 import _Remap
     ctx.guarded("R13.5", "server", lambda: read_side_interest(ctx, "R13.5"))
     ctx.guarded("R13.5", "read-switch", lambda: switch_conditions(_Remap(ctx, "R13.5"), which=("read",)))
+    ctx.rule("R13.6", "\"asked for\" in any header-name case and with surrounding whitespace: the Expect arm is selected by the lower-cased, trimmed name compared against the lower-cased Header::raw table (= C15 R15.1)")
+    from .c15 import names
+    ctx.guarded("R13.6", "names", lambda: names(_Remap(ctx, "R13.6")))
+    ctx.rule("R13.7", "a queued Continue is sent: the response queue is FIFO and is emptied only by clear_write_buffer after a failed write or a hang-up, never by the parser (= C06 R06.7)")
+    from .c06 import fifo, discard_callers
+    ctx.guarded("R13.7", "fifo", lambda: fifo(ctx, "R13.7", "response_queue", {"push_back", "pop_front", "clear"}))
+    ctx.guarded("R13.7", "discard-callers", lambda: discard_callers(ctx, "R13.7"))
 
 
 def is_continue_response(t):
